@@ -264,6 +264,15 @@ def compare_dataset(cfg, lay, call, ds, fresh=True):
         return f"meta nparticles: expected {exp['part'][4]} got {ds.meta['nparticles']}"
     if call["kind"] in ("level", "value+level", "position+level") and ds.meta["lmax"] != lay["exp"][call["req"] - 1]["lmax"]:
         return f"meta lmax: expected {lay['exp'][call['req'] - 1]['lmax']} got {ds.meta['lmax']}"
+    # metadata read from the amr / hydro headers (beyond the listed properties: part of the grammar's coverage)
+    if "mesh" in exp:
+        recs = {r["tag"]: r for r in lay["files"][0]["amr"][:24]}
+        for tag in ("dtold", "dtnew"):
+            got = [float(x) for x in ds.meta.get(tag, [])]
+            if got != [float(x) for x in recs[tag]["v"]]:
+                return f"meta {tag}: expected {recs[tag]['v']} got {got}"
+        if abs(float(ds.meta.get("gamma", 0.0)) - 1.4) > 1e-15:
+            return f"meta gamma: expected 1.4 got {ds.meta.get('gamma')}"
     t = ds.meta["time"]
     try:
         tv = float(t.magnitude) * float(ramses_expect.cgs_of_sparse(ramses_expect.sparse_of_pint(t.units)))
